@@ -5,10 +5,12 @@ import (
 	"context"
 	"fmt"
 	"strings"
+	"time"
 
 	sse "github.com/tmaxmax/go-sse"
 	"github.com/tmaxmax/go-sse/vrt"
 
+	"verif/vs/c03"
 	"verif/vs/jh"
 	"verif/vs/run"
 )
@@ -20,7 +22,8 @@ type Params struct {
 	PreInit bool
 	Slow    bool // the subscribers' Send contains a scheduling point (a slow client)
 	// Replayer: "" none; "ok" a recording replayer; "putpanic" / "replaypanic": its first Put / Replay panics
-	// (Joe recovers and stops using it); "puterr": its first Put returns an error.
+	// (Joe recovers and stops using it); "puterr": its first Put returns an error; "finite" / "valid": the real
+	// replayers with automatic IDs, every publisher's FIRST message carrying an ID of its own (so it is rejected).
 	Replayer string
 	Preempt  int
 }
@@ -62,7 +65,15 @@ func body(p Params) func() {
 			j.Replayer = &jh.Replayer{ReplayFailAt: 1, ReplayFailKind: 1}
 		case "puterr":
 			j.Replayer = &jh.Replayer{PutFailAt: 1}
+		case "finite":
+			f, _ := sse.NewFiniteReplayer(2, true)
+			j.Replayer = f
+		case "valid":
+			v, _ := sse.NewValidReplayer(time.Hour, true)
+			v.Now = func() time.Time { return time.Date(2030, 1, 1, 0, 0, 0, 0, time.UTC) }
+			j.Replayer = v
 		}
+		realRep := p.Replayer == "finite" || p.Replayer == "valid"
 		if p.PreInit {
 			jh.PreInit(j)
 		}
@@ -101,7 +112,11 @@ func body(p Params) func() {
 				}
 				hs = append(hs, vrt.GoNamed(fmt.Sprintf("P%d", base+1), func() {
 					for k := 0; k < n; k++ {
-						w.PubErrs[base+k] = j.Publish(jh.Msg(fmt.Sprintf("m%d", base+k+1), ""), []string{"a"})
+						id := ""
+						if realRep && k == 0 {
+							id = "own" // rejected by a replayer that assigns the IDs itself
+						}
+						w.PubErrs[base+k] = j.Publish(jh.Msg(fmt.Sprintf("m%d", base+k+1), id), []string{"a"})
 					}
 				}))
 			case 'd', 'x':
@@ -162,7 +177,7 @@ func check(r *vrt.Result) string {
 		}
 	}
 	for i, e := range w.PubErrs {
-		if e != nil && e != sse.ErrProviderClosed && e != jh.ErrReplay {
+		if e != nil && e != sse.ErrProviderClosed && e != jh.ErrReplay && !strings.Contains(e.Error(), "already has an ID") {
 			return fmt.Sprintf("Publish #%d returned %v, want nil or ErrProviderClosed", i+1, e)
 		}
 	}
@@ -254,7 +269,7 @@ func Scenarios(tier string) []run.Scenario {
 		}
 	}
 	// with a replayer: healthy, failing once, or panicking once in Put / Replay (Joe drops it and carries on)
-	for _, rp := range []string{"ok", "puterr", "putpanic", "replaypanic"} {
+	for _, rp := range []string{"ok", "puterr", "putpanic", "replaypanic", "finite", "valid"} {
 		for size := 2; size <= 3; size++ {
 			var ms []string
 			multisets("scpqd", size, "", &ms)
@@ -262,7 +277,7 @@ func Scenarios(tier string) []run.Scenario {
 				if strings.Count(a, "d") != 1 || strings.Count(a, "q") > 1 {
 					continue
 				}
-				if (rp == "putpanic" || rp == "puterr") && !strings.ContainsAny(a, "pq") || rp == "replaypanic" && !strings.ContainsAny(a, "sc") {
+				if (rp == "putpanic" || rp == "puterr" || rp == "finite" || rp == "valid") && !strings.ContainsAny(a, "pq") || rp == "replaypanic" && !strings.ContainsAny(a, "sc") {
 					continue
 				}
 				if !thorough && size == 3 && rp == "ok" {
@@ -274,12 +289,19 @@ func Scenarios(tier string) []run.Scenario {
 			}
 		}
 	}
+	// a Shutdown racing publishers and slow subscribers with the delivery oracle of C03: a Publish that returned nil
+	// before the Shutdown was requested has been delivered to everybody who is owed it
+	for _, sc := range c03.Scenarios(tier) {
+		if strings.HasPrefix(sc.Name, "shutdown-concurrent") {
+			out = append(out, sc)
+		}
+	}
 	return out
 }
 
 var Check = &run.Check{
 	ID: "C07", Level: "model_checking",
-	Rule: "Scenarios: every multiset of up to 4 actors (quick: all of size <= 3 and the four-actor ones with Joe pre-initialised, fast clients, at most two subscribers and single publishes) from {Subscribe, Subscribe+cancel, Publish, 2xPublish, Shutdown(background), Shutdown(ctx)+cancel} containing a Shutdown, x Joe initialised beforehand or by the racing calls x fast/slow subscribers, followed by late Subscribe/Publish/Shutdown calls; the multisets of 2-3 actors also with a replayer that is healthy, fails once, or panics once in Put or in Replay; all interleavings (unbounded, state-key pruning). Termination is decided by the deadlock detector, not by a timeout.",
+	Rule: "Scenarios: every multiset of up to 4 actors (quick: all of size <= 3 and the four-actor ones with Joe pre-initialised, fast clients, at most two subscribers and single publishes) from {Subscribe, Subscribe+cancel, Publish, 2xPublish, Shutdown(background), Shutdown(ctx)+cancel} containing a Shutdown, x Joe initialised beforehand or by the racing calls x fast/slow subscribers, followed by late Subscribe/Publish/Shutdown calls; the multisets of 2-3 actors also with a replayer that is healthy, fails once, or panics once in Put or in Replay, or is a real Finite/ValidReplayer that rejects each publisher's first message; plus C03's Shutdown-racing-delivery scenarios with the delivery oracle (nil from Publish means delivered); all interleavings (unbounded, state-key pruning). Termination is decided by the deadlock detector, not by a timeout.",
 	Assumptions: []string{
 		"schedules are explored at the granularity of synchronisation operations under sequential consistency (DESIGN.md 2.1)",
 		"subscribers' Send/Flush return (the property's proviso)",
